@@ -279,6 +279,9 @@ func runC08(c *ctx) {
 	if c.replay != "" && c.c08RetReplayRun() {
 		return
 	}
+	if c.replay != "" && c.c08RevealReplayRun() {
+		return
+	}
 	if c.replay != "" {
 		var rp c08MixReplay
 		if err := readJSON(c.replay, &rp); err == nil && rp.Protocol != "" {
@@ -297,7 +300,8 @@ func runC08(c *ctx) {
 		"(quick tier: the 3-signer CMP sets are sampled); non-trivial = history contains a refresh / a mixed session whose stale material differs from the current one; " +
 		"distinct by (material, n, t, history, seed) resp. (entry point, n, t, signers, which signer, what is stale, epoch); " +
 		"refresh given the in-memory objects the application keeps (c08_retained.go): old object unchanged vs its serialisation, signing with the current objects while the refresh is suspended " +
-		"at every round boundary / with one party a round ahead, refresh stopped after every round"
+		"at every round boundary / with one party a round ahead, refresh stopped after every round; " +
+		"refresh with a peer that reveals another value than it committed to (Doerner Receiver's refresh scalar, FROST / FROST-Taproot chain-key contribution; rewritten on the wire: random, the honest peer's own value, zero): the honest party must refuse"
 	opsPool := []string{"refresh", "restore", "derive", "sign", "refresh"}
 	genOps := func(maxLen int, withDerive bool) []string {
 		n := 2 + r.Intn(maxLen-1)
@@ -379,6 +383,8 @@ func runC08(c *ctx) {
 		}
 	}
 	c.c08Doerner()
+	// refreshes in which a peer reveals another value than it committed to (c08_reveal.go)
+	c.c08RevealAll()
 	c.c08FlushObserved()
 	_ = taproot.PublicKey{}
 	_ = bytes.Equal
